@@ -38,6 +38,15 @@ Proof.
   intros H x Hx. rewrite forallb_forall in H. apply H. apply In_Nseq. lia.
 Qed.
 
+Lemma forallb_Nseq2 (f : N -> N -> bool) (n m : nat) :
+  forallb (fun a => forallb (f a) (Nseq 0 m)) (Nseq 0 n) = true ->
+  forall a b, a < N.of_nat n -> b < N.of_nat m -> f a b = true.
+Proof.
+  intros H a b Ha Hb.
+  pose proof (forallb_Nseq _ _ H a Ha) as H1. cbv beta in H1.
+  exact (forallb_Nseq _ _ H1 b Hb).
+Qed.
+
 Lemma bits_eqb_eq : forall a b, bits_eqb a b = true <-> a = b.
 Proof.
   induction a as [|x a IH]; intros [|y b]; cbn [bits_eqb]; try (split; congruence).
@@ -198,25 +207,20 @@ Proof.
   - rewrite Bool.eqb_reflx, IH. reflexivity.
 Qed.
 
-Definition prefix_free_sweep (codes : list (list bool)) : bool :=
-  forallb (fun s1 =>
-    forallb (fun s2 =>
-      implb (is_prefix (nth (N.to_nat s1) codes []) (nth (N.to_nat s2) codes [])) (s1 =? s2))
-      (Nseq 0 257)) (Nseq 0 257).
+Definition prefix_ok (s1 s2 : N) : bool :=
+  implb (is_prefix (code_bits s1) (code_bits s2)) (s1 =? s2).
 
-Lemma rfc_prefix_free_sweep : prefix_free_sweep rfc_code_bits = true.
+Lemma rfc_prefix_free_sweep :
+  forallb (fun s1 => forallb (prefix_ok s1) (Nseq 0 257)) (Nseq 0 257) = true.
 Proof. vm_compute. reflexivity. Qed.
 
 Lemma rfc_prefix_free s1 s2 l :
   s1 < 257 -> s2 < 257 -> code_bits s1 ++ l = code_bits s2 -> s1 = s2.
 Proof.
   intros H1 H2 Heq.
-  pose proof rfc_prefix_free_sweep as S. unfold prefix_free_sweep in S.
-  pose proof (forallb_Nseq _ _ S s1 ltac:(lia)) as S1. cbv beta in S1.
-  pose proof (forallb_Nseq _ _ S1 s2 ltac:(lia)) as S2. cbv beta in S2.
-  fold (code_bits s1) in S2. fold (code_bits s2) in S2.
-  rewrite <- Heq, is_prefix_app in S2. cbn [implb] in S2.
-  apply N.eqb_eq, S2.
+  pose proof (forallb_Nseq2 _ _ _ rfc_prefix_free_sweep s1 s2 ltac:(lia) ltac:(lia)) as S.
+  unfold prefix_ok in S. rewrite <- Heq, is_prefix_app in S. cbn [implb] in S.
+  apply N.eqb_eq, S.
 Qed.
 
 (* find_code is the inverse of code_bits *)
@@ -427,3 +431,672 @@ Corollary huff_valid_unique bs s1 s2 : huff_valid bs s1 -> huff_valid bs s2 -> s
 Proof.
   intros H1 H2. apply ref_huff_decode_complete in H1, H2. congruence.
 Qed.
+
+(* ---------------------------------------------------------------------------------------- *)
+(** * 4. DECODE_TABLE: every cell is the correct 8-bit look-ahead *)
+
+(* result of walking a finite word from a path of the code tree: the first code word completed
+   (with the unread rest of the word), or the longer path *)
+Inductive wstep : Type :=
+| WEmit (s : N) (rest : list bool)
+| WCont (path : list bool).
+
+Fixpoint step_word (path w : list bool) : wstep :=
+  match w with
+  | [] => WCont path
+  | b :: w' =>
+      let path' := path ++ [b] in
+      match find_code path' with
+      | Some s => WEmit s w'
+      | None => step_word path' w'
+      end
+  end.
+
+Lemma ref_walk_step_word : forall w path tl,
+  ref_walk path (w ++ tl) =
+    match step_word path w with
+    | WEmit s w' => if s =? EOS then None else option_map (cons s) (ref_walk [] (w' ++ tl))
+    | WCont path' => ref_walk path' tl
+    end.
+Proof.
+  induction w as [|b w IH]; intros path tl; cbn [app step_word].
+  - reflexivity.
+  - cbn [ref_walk]. destruct (find_code (path ++ [b])) as [s|].
+    + reflexivity.
+    + apply IH.
+Qed.
+
+(* The bit prefix (path in the code tree) of each of the 15 sub-tables, computed from
+   DECODE_TABLE itself: table 0 is the root; a table entered by a BRANCH cell (t, i) has the
+   path of t followed by the 8 bits of i. *)
+Fixpoint find_parent_from (idx : N) (l : list N) (t' : N) : option (N * N) :=
+  match l with
+  | [] => None
+  | e :: l' =>
+      if entry_is_branch e && (entry_table e =? t')
+      then Some (idx / huff_TABLE_WIDTH, idx mod huff_TABLE_WIDTH)
+      else find_parent_from (idx + 1) l' t'
+  end.
+
+Fixpoint tpath_fuel (fuel : nat) (t : N) : list bool :=
+  match fuel with
+  | O => []
+  | S fuel' =>
+      if t =? 0 then []
+      else match find_parent_from 0 dec_table t with
+           | Some (p, i) => tpath_fuel fuel' p ++ bitsN 8 i
+           | None => []
+           end
+  end.
+
+Definition table_paths : list (list bool) := map (tpath_fuel 4) (Nseq 0 15).
+Definition tpath (t : N) : list bool := nth (N.to_nat t) table_paths [].
+
+Lemma tpath_0 : tpath 0 = [].
+Proof. vm_compute. reflexivity. Qed.
+
+Definition wstep_is_emit (r : wstep) (s : N) (rest : list bool) : bool :=
+  match r with
+  | WEmit s' rest' => (s' =? s) && bits_eqb rest' rest
+  | WCont _ => false
+  end.
+
+Definition wstep_is_cont (r : wstep) (path : list bool) : bool :=
+  match r with
+  | WEmit _ _ => false
+  | WCont path' => bits_eqb path' path
+  end.
+
+Definition wstep_is_eos (r : wstep) : bool :=
+  match r with
+  | WEmit s _ => s =? EOS
+  | WCont _ => false
+  end.
+
+(* cell [i] of table [t] is what walking the 8 bits of [i] from the tree node of [t] gives *)
+Definition cell_ok (t i : N) : bool :=
+  match dec_entry t i with
+  | None => false
+  | Some e =>
+      let w := bitsN 8 i in
+      let r := step_word (tpath t) w in
+      if entry_is_branch e then
+        if entry_table e =? 0 then wstep_is_eos r
+        else (entry_table e <? 15) && wstep_is_cont r (tpath (entry_table e))
+      else
+        (1 <=? entry_used e) && (entry_used e <=? 8) && (entry_sym e <? 256) &&
+        wstep_is_emit r (entry_sym e) (skipn (N.to_nat (entry_used e)) w)
+  end.
+
+(* THE finite sweep over all 15 * 256 cells (breaks when DECODE_TABLE is edited wrongly) *)
+Lemma dec_table_cells_sweep :
+  forallb (fun t => forallb (cell_ok t) (Nseq 0 256)) (Nseq 0 15) = true.
+Proof. vm_compute. reflexivity. Qed.
+
+Lemma dec_table_length : length dec_table = 3840%nat.
+Proof. vm_compute. reflexivity. Qed.
+
+(* look-ahead lemma: one table lookup = walking 8 bits in the reference decoder *)
+Lemma lookahead t i tl :
+  t < 15 -> i < 256 ->
+  exists e, dec_entry t i = Some e /\
+    if entry_is_branch e then
+      if entry_table e =? 0 then ref_walk (tpath t) (bitsN 8 i ++ tl) = None
+      else entry_table e < 15 /\
+           ref_walk (tpath t) (bitsN 8 i ++ tl) = ref_walk (tpath (entry_table e)) tl
+    else
+      1 <= entry_used e <= 8 /\ entry_sym e < 256 /\
+      ref_walk (tpath t) (bitsN 8 i ++ tl) =
+        option_map (cons (entry_sym e))
+                   (ref_walk [] (skipn (N.to_nat (entry_used e)) (bitsN 8 i) ++ tl)).
+Proof.
+  intros Ht Hi.
+  pose proof (forallb_Nseq2 _ _ _ dec_table_cells_sweep t i ltac:(lia) ltac:(lia)) as C.
+  unfold cell_ok in C. destruct (dec_entry t i) as [e|]; [|discriminate].
+  exists e. split; [reflexivity|]. cbv zeta in C.
+  rewrite ref_walk_step_word.
+  destruct (entry_is_branch e).
+  - destruct (entry_table e =? 0).
+    + destruct (step_word (tpath t) (bitsN 8 i)) as [s w'|p]; cbn [wstep_is_eos] in C; [|discriminate].
+      rewrite C. reflexivity.
+    + apply andb_true_iff in C as [C1 C2]. apply N.ltb_lt in C1. split; [exact C1|].
+      destruct (step_word (tpath t) (bitsN 8 i)) as [s w'|p]; cbn [wstep_is_cont] in C2; [discriminate|].
+      apply bits_eqb_eq in C2. subst p. reflexivity.
+  - apply andb_true_iff in C as [C Cemit]. apply andb_true_iff in C as [C Csym].
+    apply andb_true_iff in C as [Cu1 Cu8].
+    apply N.leb_le in Cu1. apply N.leb_le in Cu8. apply N.ltb_lt in Csym.
+    split; [lia|]. split; [exact Csym|].
+    destruct (step_word (tpath t) (bitsN 8 i)) as [s w'|p]; cbn [wstep_is_emit] in Cemit; [|discriminate].
+    apply andb_true_iff in Cemit as [C3 C4]. apply N.eqb_eq in C3. apply bits_eqb_eq in C4. subst s w'.
+    replace (entry_sym e =? EOS) with false; [reflexivity|].
+    symmetry. apply N.eqb_neq. unfold EOS. lia.
+Qed.
+
+(* ---------------------------------------------------------------------------------------- *)
+(** * 5. the inner loop (one input byte) *)
+
+Lemma bitsN_lookup bits acc :
+  8 <= bits ->
+  bitsN (N.to_nat bits) acc =
+    bitsN 8 ((acc / 2 ^ (bits - 8)) mod 256) ++ bitsN (N.to_nat (bits - 8)) acc.
+Proof.
+  intros H. replace bits with (8 + (bits - 8)) at 1 by lia.
+  rewrite bitsN_split. f_equal.
+  change 256 with (2 ^ 8). change (N.to_nat 8) with 8%nat.
+  rewrite bitsN_mod by (cbn; lia). reflexivity.
+Qed.
+
+Lemma option_map_app_nil (o : option (list N)) : option_map (app []) o = o.
+Proof. destruct o; reflexivity. Qed.
+
+Lemma dec_inner_correct : forall fuel t acc bits tl,
+  t < 15 -> bits < 8 + N.of_nat fuel ->
+  match dec_inner fuel t acc bits with
+  | IState t' bits' put =>
+      t' < 15 /\ bits' < 8 /\
+      ref_walk (tpath t) (bitsN (N.to_nat bits) acc ++ tl) =
+        option_map (app put) (ref_walk (tpath t') (bitsN (N.to_nat bits') acc ++ tl))
+  | IErr => ref_walk (tpath t) (bitsN (N.to_nat bits) acc ++ tl) = None
+  | IPanic => False
+  | ILoop => False
+  end.
+Proof.
+  induction fuel as [|fuel IH]; intros t acc bits tl Ht Hfuel.
+  - cbn [dec_inner]. destruct (bits <? 8) eqn:Hb; [|apply N.ltb_ge in Hb; lia].
+    apply N.ltb_lt in Hb. rewrite option_map_app_nil. auto.
+  - cbn [dec_inner]. destruct (bits <? 8) eqn:Hb.
+    { apply N.ltb_lt in Hb. rewrite option_map_app_nil. auto. }
+    apply N.ltb_ge in Hb.
+    set (i := (acc / 2 ^ (bits - 8)) mod 256).
+    assert (Hi : i < 256) by (apply N.mod_lt; lia).
+    rewrite (bitsN_lookup bits acc Hb). fold i. rewrite <- app_assoc.
+    destruct (lookahead t i (bitsN (N.to_nat (bits - 8)) acc ++ tl) Ht Hi) as [e [He L]].
+    rewrite He.
+    destruct (entry_is_branch e); cbn [negb].
+    + destruct (entry_table e =? 0) eqn:Ht'.
+      * exact L.
+      * destruct L as [Ht'' L]. rewrite L.
+        apply IH; [exact Ht''|lia].
+    + destruct L as [Hu [Hs L]].
+      destruct (bits <? entry_used e) eqn:Hbu; [apply N.ltb_lt in Hbu; lia|].
+      rewrite L.
+      assert (Hskip : skipn (N.to_nat (entry_used e)) (bitsN 8 i) ++ bitsN (N.to_nat (bits - 8)) acc
+                      = bitsN (N.to_nat (bits - entry_used e)) acc).
+      { replace (N.to_nat (bits - entry_used e)) with (N.to_nat bits - N.to_nat (entry_used e))%nat by lia.
+        rewrite <- bitsN_skipn. rewrite (bitsN_lookup bits acc Hb). fold i.
+        rewrite skipn_app. rewrite bitsN_length.
+        replace (N.to_nat (entry_used e) - 8)%nat with 0%nat by lia. reflexivity. }
+      rewrite app_assoc, Hskip.
+      pose proof (IH 0 acc (bits - entry_used e) tl ltac:(lia) ltac:(lia)) as R.
+      rewrite tpath_0 in R.
+      destruct (dec_inner fuel 0 acc (bits - entry_used e)) as [t' bits' put| | |]; cbn [inner_put].
+      * destruct R as [R1 [R2 R3]]. split; [exact R1|]. split; [exact R2|].
+        rewrite R3. destruct (ref_walk (tpath t') (bitsN (N.to_nat bits') acc ++ tl)); reflexivity.
+      * rewrite R. reflexivity.
+      * exact R.
+      * exact R.
+Qed.
+
+(* ---------------------------------------------------------------------------------------- *)
+(** * 6. the final padding loop *)
+
+Definition embed (o : option (list N)) : hres :=
+  match o with
+  | Some l => HOk l
+  | None => HErr
+  end.
+
+Definition hres_eqb (a b : hres) : bool :=
+  match a, b with
+  | HOk x, HOk y => list_N_eqb x y
+  | HErr, HErr => true
+  | HPanic, HPanic => true
+  | HLoop, HLoop => true
+  | _, _ => false
+  end.
+
+Lemma hres_eqb_eq a b : hres_eqb a b = true -> a = b.
+Proof.
+  destruct a, b; cbn [hres_eqb]; try discriminate; try reflexivity.
+  intros H. apply list_N_eqb_eq in H. subst; reflexivity.
+Qed.
+
+(* all (table, number of pending bits < 8, value of the pending bits) states *)
+Definition finish_ok (t bits : N) : bool :=
+  forallb (fun v => hres_eqb (dec_finish inner_fuel t v bits)
+                             (embed (ref_walk (tpath t) (bitsN (N.to_nat bits) v))))
+          (Nseq 0 (N.to_nat (2 ^ bits))).
+
+Lemma dec_finish_sweep :
+  forallb (fun t => forallb (finish_ok t) (Nseq 0 8)) (Nseq 0 15) = true.
+Proof. vm_compute. reflexivity. Qed.
+
+(* the loop only looks at the [bits] low bits of [acc] *)
+Lemma dec_finish_indep : forall fuel t a1 a2 bits,
+  a1 mod 2 ^ bits = a2 mod 2 ^ bits ->
+  dec_finish fuel t a1 bits = dec_finish fuel t a2 bits.
+Proof.
+  induction fuel as [|fuel IH]; intros t a1 a2 bits Heq; cbn [dec_finish].
+  - reflexivity.
+  - destruct (bits =? 0); [reflexivity|].
+    destruct (8 <=? bits) eqn:Hb; [reflexivity|]. apply N.leb_gt in Hb.
+    assert (Hland : forall a, N.land a (2 ^ bits - 1) = a mod 2 ^ bits).
+    { intros a. rewrite <- N.land_ones. f_equal. rewrite N.ones_equiv. lia. }
+    rewrite !Hland, Heq.
+    assert (Hidx : forall a, ((a * 2 ^ (8 - bits)) mod 2 ^ 32) mod 256 = (a mod 2 ^ bits) * 2 ^ (8 - bits)).
+    { intros a. change 256 with (2 ^ 8). rewrite mod_mod_pow2 by lia.
+      rewrite (pow2_split 8 (8 - bits)) by lia. replace (8 - (8 - bits)) with bits by lia.
+      apply N.mul_mod_distr_r; apply pow2_nz. }
+    rewrite !Hidx, Heq.
+    destruct ((t =? 0) && (a2 mod 2 ^ bits =? 2 ^ bits - 1)); [reflexivity|].
+    destruct (dec_entry t (a2 mod 2 ^ bits * 2 ^ (8 - bits))) as [e|]; [|reflexivity].
+    destruct (entry_is_branch e); [reflexivity|].
+    destruct (bits <? entry_used e) eqn:Hu; [reflexivity|]. apply N.ltb_ge in Hu.
+    f_equal. apply IH.
+    rewrite <- (mod_mod_pow2 a1 bits (bits - entry_used e)) by lia.
+    rewrite <- (mod_mod_pow2 a2 bits (bits - entry_used e)) by lia.
+    rewrite Heq. reflexivity.
+Qed.
+
+Lemma dec_finish_correct t acc bits :
+  t < 15 -> bits < 8 ->
+  dec_finish inner_fuel t acc bits = embed (ref_walk (tpath t) (bitsN (N.to_nat bits) acc)).
+Proof.
+  intros Ht Hb.
+  pose proof (forallb_Nseq2 _ _ _ dec_finish_sweep t bits ltac:(lia) ltac:(lia)) as S.
+  unfold finish_ok in S.
+  assert (Hv : acc mod 2 ^ bits < N.of_nat (N.to_nat (2 ^ bits))).
+  { rewrite N2Nat.id. apply N.mod_lt, pow2_nz. }
+  pose proof (forallb_Nseq _ _ S (acc mod 2 ^ bits) Hv) as S1. cbv beta in S1.
+  apply hres_eqb_eq in S1.
+  rewrite bitsN_mod in S1 by lia. rewrite <- S1.
+  apply dec_finish_indep. rewrite N.mod_mod by apply pow2_nz. reflexivity.
+Qed.
+
+(* ---------------------------------------------------------------------------------------- *)
+(** * 7. the decoder is exactly the reference decoder *)
+
+Lemma push_byte acc bits byte :
+  bits <= 24 -> byte < 256 ->
+  bitsN (N.to_nat (bits + 8)) (N.lor ((acc * 256) mod 2 ^ 32) byte) =
+    bitsN (N.to_nat bits) acc ++ bitsN 8 byte.
+Proof.
+  intros Hb Hbyte.
+  change (2 ^ 32) with 4294967296.
+  rewrite (lor_add_disjoint _ byte 8) by (change (2 ^ 8) with 256; lia).
+  rewrite bitsN_split. f_equal.
+  - change (2 ^ 8) with 256.
+    replace (((acc * 256) mod 4294967296 + byte) / 256) with (acc mod 2 ^ 24)
+      by (change (2 ^ 24) with 16777216; lia).
+    apply bitsN_mod. lia.
+  - change (N.to_nat 8) with 8%nat.
+    rewrite <- (bitsN_mod 8 _ 8) by (cbn; lia). f_equal.
+    change (2 ^ 8) with 256. lia.
+Qed.
+
+Lemma embed_put put o : hres_put put (embed o) = embed (option_map (app put) o).
+Proof. destruct o; reflexivity. Qed.
+
+Lemma dec_bytes_correct : forall src t acc bits,
+  t < 15 -> bits < 8 -> bytes_ok src = true ->
+  dec_bytes t acc bits src =
+    embed (ref_walk (tpath t) (bitsN (N.to_nat bits) acc ++ bits_of_bytes src)).
+Proof.
+  induction src as [|byte src IH]; intros t acc bits Ht Hb Hok; cbn [dec_bytes bits_of_bytes].
+  - rewrite app_nil_r. apply dec_finish_correct; assumption.
+  - apply bytes_ok_cons in Hok as [Hbyte Hok].
+    rewrite app_assoc, <- (push_byte acc bits byte) by lia.
+    set (acc' := N.lor ((acc * 256) mod 2 ^ 32) byte).
+    pose proof (dec_inner_correct inner_fuel t acc' (bits + 8) (bits_of_bytes src) Ht
+                  ltac:(unfold inner_fuel; lia)) as R.
+    destruct (dec_inner inner_fuel t acc' (bits + 8)) as [t' bits' put| | |].
+    + destruct R as [R1 [R2 R3]]. rewrite R3, IH by assumption. apply embed_put.
+    + rewrite R. reflexivity.
+    + destruct R.
+    + destruct R.
+Qed.
+
+(* MAIN THEOREM (decoder), for every byte string *)
+Theorem huff_decode_exact bytes :
+  bytes_ok bytes = true ->
+  huff_decode bytes = embed (ref_huff_decode (bits_of_bytes bytes)).
+Proof.
+  intros Hok. unfold huff_decode, ref_huff_decode.
+  rewrite (dec_bytes_correct bytes 0 0 0) by (try lia; exact Hok).
+  rewrite tpath_0. reflexivity.
+Qed.
+
+Example huff_decode_exact_nonvacuous : bytes_ok [254; 1] = true /\ huff_decode [254; 1] = HOk [33; 48].
+Proof. vm_compute. auto. Qed.
+
+Corollary huff_decode_never_panics bytes :
+  bytes_ok bytes = true -> huff_decode bytes <> HPanic /\ huff_decode bytes <> HLoop.
+Proof.
+  intros Hok. rewrite (huff_decode_exact bytes Hok).
+  destruct (ref_huff_decode (bits_of_bytes bytes)); cbn [embed]; split; discriminate.
+Qed.
+
+(* Ok exactly on the RFC grammar, with exactly the RFC's field value *)
+Corollary huff_decode_ok_iff bytes syms :
+  bytes_ok bytes = true ->
+  (huff_decode bytes = HOk syms <-> huff_valid (bits_of_bytes bytes) syms).
+Proof.
+  intros Hok. rewrite (huff_decode_exact bytes Hok), <- ref_huff_decode_iff.
+  destruct (ref_huff_decode (bits_of_bytes bytes)); cbn [embed]; split; intros H; congruence.
+Qed.
+
+Corollary huff_decode_err_iff bytes :
+  bytes_ok bytes = true ->
+  (huff_decode bytes = HErr <-> forall syms, ~ huff_valid (bits_of_bytes bytes) syms).
+Proof.
+  intros Hok. rewrite (huff_decode_exact bytes Hok). split.
+  - intros H syms V. apply ref_huff_decode_complete in V. rewrite V in H. discriminate.
+  - intros H. destruct (ref_huff_decode (bits_of_bytes bytes)) as [syms|] eqn:R; [|reflexivity].
+    exfalso. apply (H syms), ref_huff_decode_sound, R.
+Qed.
+
+(* the decoding errors RFC 7541 section 5.2 demands *)
+
+(* EOS inside the string *)
+Corollary huff_decode_rejects_eos bytes pre tl :
+  bytes_ok bytes = true -> Forall (fun s => s < 256) pre ->
+  bits_of_bytes bytes = concat (map code_bits pre) ++ code_bits EOS ++ tl ->
+  huff_decode bytes = HErr.
+Proof.
+  intros Hok Hpre Heq. rewrite (huff_decode_exact bytes Hok). unfold ref_huff_decode.
+  rewrite Heq, ref_walk_codes by exact Hpre.
+  rewrite (ref_walk_code (code_bits EOS) [] EOS);
+    [| unfold EOS; lia | reflexivity | apply code_bits_nonempty; unfold EOS; lia].
+  reflexivity.
+Qed.
+
+(* padding of 8 or more one-bits (whatever its length) *)
+Corollary huff_decode_rejects_long_padding bytes pre pad :
+  bytes_ok bytes = true -> Forall (fun s => s < 256) pre ->
+  bits_of_bytes bytes = concat (map code_bits pre) ++ pad ->
+  all_ones pad = true -> (8 <= length pad)%nat ->
+  huff_decode bytes = HErr.
+Proof.
+  intros Hok Hpre Heq Hones Hlen. rewrite (huff_decode_exact bytes Hok). unfold ref_huff_decode.
+  rewrite Heq, ref_walk_codes by exact Hpre.
+  rewrite ref_walk_ones; [| exact Hones | cbn [length]; lia].
+  cbn [app]. replace (length pad <? 8)%nat with false by (symmetry; apply Nat.ltb_ge; lia).
+  reflexivity.
+Qed.
+
+(* an incomplete code at the end (no code word is a prefix of it) is accepted only if it is
+   fewer than 8 bits, all ones *)
+Corollary huff_decode_padding bytes pre pad :
+  bytes_ok bytes = true -> Forall (fun s => s < 256) pre ->
+  bits_of_bytes bytes = concat (map code_bits pre) ++ pad ->
+  (forall s l, s < 257 -> pad <> code_bits s ++ l) ->
+  huff_decode bytes = if (length pad <? 8)%nat && all_ones pad then HOk pre else HErr.
+Proof.
+  intros Hok Hpre Heq Hinc. rewrite (huff_decode_exact bytes Hok). unfold ref_huff_decode.
+  rewrite Heq, ref_walk_codes by exact Hpre.
+  rewrite ref_walk_incomplete by exact Hinc. cbn [app].
+  destruct ((length pad <? 8)%nat && all_ones pad); cbn [option_map embed]; [|reflexivity].
+  rewrite app_nil_r. reflexivity.
+Qed.
+
+Corollary huff_decode_rejects_bad_padding bytes pre pad :
+  bytes_ok bytes = true -> Forall (fun s => s < 256) pre ->
+  bits_of_bytes bytes = concat (map code_bits pre) ++ pad ->
+  (forall s l, s < 257 -> pad <> code_bits s ++ l) ->
+  all_ones pad = false ->
+  huff_decode bytes = HErr.
+Proof.
+  intros Hok Hpre Heq Hinc Hbad. rewrite (huff_decode_padding bytes pre pad) by assumption.
+  rewrite Hbad, andb_false_r. reflexivity.
+Qed.
+
+(* non-vacuity: a concrete decode and a concrete rejection of each kind *)
+Example ex_decode_ok : huff_decode [156; 180; 80; 127] = HOk [104; 101; 108; 108; 111].   (* "hello" *)
+Proof. vm_compute. reflexivity. Qed.
+Example ex_decode_ok_pad7 : huff_decode [63] = HOk [111].   (* 'o' = 00111 + 3 ones *)
+Proof. vm_compute. reflexivity. Qed.
+Example ex_reject_eos : huff_decode [255; 255; 255; 255] = HErr.            (* EOS + 2 ones *)
+Proof. vm_compute. reflexivity. Qed.
+Example ex_reject_eos_inside : huff_decode [7; 255; 255; 255; 231] = HErr.  (* '0', EOS, 'o' *)
+Proof. vm_compute. reflexivity. Qed.
+Example ex_reject_long_padding : huff_decode [7; 255] = HErr.              (* '0' + 11 ones *)
+Proof. vm_compute. reflexivity. Qed.
+Example ex_reject_8_ones : huff_decode [255] = HErr.
+Proof. vm_compute. reflexivity. Qed.
+Example ex_reject_zero_padding : huff_decode [6] = HErr.                   (* '0' + 110 *)
+Proof. vm_compute. reflexivity. Qed.
+Example ex_reject_incomplete_long_code : huff_decode [255; 254] = HErr.
+Proof. vm_compute. reflexivity. Qed.
+Example ex_rejects_eos_hyps :
+  bits_of_bytes [7; 255; 255; 255; 231] = concat (map code_bits [48]) ++ code_bits EOS ++ code_bits 111 /\
+  Forall (fun s => s < 256) [48].
+Proof. split; [vm_compute; reflexivity | repeat constructor]. Qed.
+Example ex_long_padding_hyps :
+  bits_of_bytes [7; 255] = concat (map code_bits [48]) ++ repeat true 11.
+Proof. vm_compute. reflexivity. Qed.
+
+(* ---------------------------------------------------------------------------------------- *)
+(** * 8. the encoder *)
+
+(* what ENCODE_TABLE[b] holds, for every symbol *)
+Definition enc_entry_ok (b : N) : bool :=
+  match nth_error enc_table (N.to_nat b) with
+  | Some (n, c) =>
+      (5 <=? n) && (n <=? 30) && (c <? 2 ^ n) && bits_eqb (code_bits b) (bitsN (N.to_nat n) c)
+  | None => false
+  end.
+
+Lemma enc_table_sweep : forallb enc_entry_ok (Nseq 0 257) = true.
+Proof. vm_compute. reflexivity. Qed.
+
+Lemma enc_entry b :
+  b < 257 ->
+  exists n c, nth_error enc_table (N.to_nat b) = Some (n, c) /\
+              5 <= n <= 30 /\ c < 2 ^ n /\ code_bits b = bitsN (N.to_nat n) c.
+Proof.
+  intros Hb. pose proof (forallb_Nseq _ _ enc_table_sweep b ltac:(lia)) as S.
+  unfold enc_entry_ok in S.
+  destruct (nth_error enc_table (N.to_nat b)) as [[n c]|]; [|discriminate].
+  apply andb_true_iff in S as [S S4]. apply andb_true_iff in S as [S S3].
+  apply andb_true_iff in S as [S1 S2].
+  apply N.leb_le in S1. apply N.leb_le in S2. apply N.ltb_lt in S3. apply bits_eqb_eq in S4.
+  exists n, c. auto.
+Qed.
+
+Lemma mod0_mul a k : a mod 2 ^ k = 0 -> a = (a / 2 ^ k) * 2 ^ k.
+Proof.
+  intros H. rewrite N.mul_comm. apply N.div_exact; [apply pow2_nz | exact H].
+Qed.
+
+(* the flush loop writes out whole bytes of the pending bits *)
+Lemma enc_flush_correct : forall fuel bits left,
+  left <= 40 -> 32 < left + 8 * N.of_nat fuel -> bits mod 2 ^ left = 0 ->
+  exists put bits' left',
+    enc_flush fuel bits left = Some (put, bits', left') /\
+    33 <= left' <= 40 /\ bits' mod 2 ^ left' = 0 /\ bytes_ok put = true /\
+    bitsN (N.to_nat (40 - left)) (bits / 2 ^ left) =
+      bits_of_bytes put ++ bitsN (N.to_nat (40 - left')) (bits' / 2 ^ left').
+Proof.
+  induction fuel as [|fuel IH]; intros bits left Hle Hfuel Hmod; cbn [enc_flush].
+  - destruct (32 <? left) eqn:E; [|apply N.ltb_ge in E; lia]. apply N.ltb_lt in E.
+    exists [], bits, left. repeat split; try lia; try assumption.
+  - destruct (32 <? left) eqn:E.
+    { apply N.ltb_lt in E. exists [], bits, left. repeat split; try lia; try assumption. }
+    apply N.ltb_ge in E.
+    assert (Hmod' : ((bits * 256) mod 2 ^ 64) mod 2 ^ (left + 8) = 0).
+    { rewrite mod_mod_pow2 by lia. rewrite (mod0_mul bits left Hmod).
+      change 256 with (2 ^ 8). rewrite <- N.mul_assoc, <- N.pow_add_r.
+      apply N.mod_mul, pow2_nz. }
+    destruct (IH ((bits * 256) mod 2 ^ 64) (left + 8) ltac:(lia) ltac:(lia) Hmod')
+      as [put [bits' [left' [Hf [Hl [Hm [Hok Hbits]]]]]]].
+    rewrite Hf.
+    exists ((bits / 2 ^ 32) mod 256 :: put), bits', left'.
+    split; [reflexivity|]. split; [exact Hl|]. split; [exact Hm|].
+    clear Hmod' Hf IH Hmod Hm.
+    split.
+    { apply bytes_ok_cons. split; [apply N.mod_lt; lia | exact Hok]. }
+    cbn [bits_of_bytes]. rewrite <- app_assoc, <- Hbits.
+    replace (40 - left) with (8 + (32 - left)) by lia.
+    rewrite bitsN_split. f_equal.
+    + change (N.to_nat 8) with 8%nat. change 256 with (2 ^ 8).
+      rewrite bitsN_mod by (cbn; lia). f_equal.
+      rewrite N.div_div by apply pow2_nz. rewrite <- N.pow_add_r. do 2 f_equal. lia.
+    + replace (40 - (left + 8)) with (32 - left) by lia.
+      apply bitsN_ext. intros i Hi.
+      rewrite !N.div_pow2_bits.
+      rewrite N.mod_pow2_bits_low by lia.
+      change 256 with (2 ^ 8).
+      replace (i + (left + 8)) with ((i + left) + 8) by lia.
+      rewrite N.mul_pow2_bits_add. reflexivity.
+Qed.
+
+(* appending one code word to the pending bits *)
+Lemma enc_push_code bits left n c :
+  n <= left -> left <= 40 -> c < 2 ^ n -> bits mod 2 ^ left = 0 ->
+  let bits1 := N.lor bits ((c * 2 ^ (left - n)) mod 2 ^ 64) in
+  bits1 mod 2 ^ (left - n) = 0 /\
+  bitsN (N.to_nat (40 - (left - n))) (bits1 / 2 ^ (left - n)) =
+    bitsN (N.to_nat (40 - left)) (bits / 2 ^ left) ++ bitsN (N.to_nat n) c.
+Proof.
+  intros Hn Hle Hc Hmod bits1.
+  set (q := bits / 2 ^ left).
+  assert (Hbits : bits = q * 2 ^ n * 2 ^ (left - n)).
+  { rewrite <- N.mul_assoc, <- N.pow_add_r. replace (n + (left - n)) with left by lia.
+    apply mod0_mul, Hmod. }
+  assert (Hlt : c * 2 ^ (left - n) < 2 ^ left).
+  { rewrite (pow2_split left (left - n)) by lia. replace (left - (left - n)) with n by lia.
+    apply N.mul_lt_mono_pos_r; [|exact Hc].
+    pose proof (pow2_nz (left - n)). lia. }
+  assert (H64 : 2 ^ left <= 2 ^ 64) by (apply N.pow_le_mono_r; lia).
+  assert (Hb1 : bits1 = (q * 2 ^ n + c) * 2 ^ (left - n)).
+  { unfold bits1. rewrite N.mod_small by lia.
+    rewrite (lor_add_disjoint bits _ left Hmod Hlt).
+    rewrite Hbits at 1. rewrite N.mul_add_distr_r. reflexivity. }
+  rewrite Hb1. split.
+  - apply N.mod_mul, pow2_nz.
+  - rewrite N.div_mul by apply pow2_nz.
+    replace (40 - (left - n)) with ((40 - left) + n) by lia.
+    rewrite bitsN_split. f_equal.
+    + f_equal. rewrite N.div_add_l by apply pow2_nz.
+      rewrite (N.div_small c) by exact Hc. lia.
+    + rewrite <- (bitsN_mod (N.to_nat n) (q * 2 ^ n + c) n) by lia. f_equal.
+      rewrite N.add_comm, N.mod_add by apply pow2_nz. apply N.mod_small, Hc.
+Qed.
+
+(* the final byte: pending bits then ones *)
+Lemma enc_last_byte bits left :
+  33 <= left < 40 -> bits mod 2 ^ left = 0 ->
+  exists pad,
+    bitsN 8 ((N.lor bits (2 ^ left - 1) / 2 ^ 32) mod 256) =
+      bitsN (N.to_nat (40 - left)) (bits / 2 ^ left) ++ pad /\
+    (length pad < 8)%nat /\ all_ones pad = true.
+Proof.
+  intros Hl Hmod.
+  pose proof (pow2_nz left) as Hnz.
+  rewrite (lor_add_disjoint bits (2 ^ left - 1) left Hmod) by lia.
+  set (x := bits + (2 ^ left - 1)).
+  exists (bitsN (N.to_nat (left - 32)) (x / 2 ^ 32)).
+  split; [|split].
+  - change 256 with (2 ^ 8). rewrite bitsN_mod by (cbn; lia).
+    change 8%nat with (N.to_nat 8). replace 8 with ((40 - left) + (left - 32)) at 1 by lia.
+    rewrite bitsN_split. f_equal. f_equal.
+    rewrite N.div_div by apply pow2_nz. rewrite <- N.pow_add_r.
+    replace (32 + (left - 32)) with left by lia.
+    unfold x. rewrite (mod0_mul bits left Hmod) at 1.
+    rewrite N.div_add_l by exact Hnz. rewrite (N.div_small (2 ^ left - 1)) by lia. lia.
+  - rewrite bitsN_length. lia.
+  - apply bitsN_all_ones. intros i Hi.
+    rewrite N.div_pow2_bits.
+    rewrite <- (N.mod_pow2_bits_low x left) by lia.
+    replace (x mod 2 ^ left) with (N.ones left).
+    + apply N.ones_spec_low. lia.
+    + unfold x. rewrite (mod0_mul bits left Hmod) at 1.
+      rewrite N.add_comm, N.mod_add by exact Hnz.
+      rewrite N.mod_small by lia. rewrite N.ones_equiv. lia.
+Qed.
+
+Lemma enc_loop_correct : forall src bits left,
+  33 <= left <= 40 -> bits mod 2 ^ left = 0 -> bytes_ok src = true ->
+  exists out pad,
+    enc_loop bits left src = Some out /\ bytes_ok out = true /\
+    bits_of_bytes out =
+      bitsN (N.to_nat (40 - left)) (bits / 2 ^ left) ++ concat (map code_bits src) ++ pad /\
+    (length pad < 8)%nat /\ all_ones pad = true.
+Proof.
+  induction src as [|b src IH]; intros bits left Hl Hmod Hok; cbn [enc_loop map concat].
+  - destruct (left =? 40) eqn:E.
+    + apply N.eqb_eq in E. subst left. exists [], []. repeat split; try reflexivity. cbn [length]; lia.
+    + apply N.eqb_neq in E.
+      destruct (64 <=? left) eqn:E64; [apply N.leb_le in E64; lia|].
+      destruct (enc_last_byte bits left ltac:(lia) Hmod) as [pad [Hb [Hlen Hones]]].
+      exists [(N.lor bits (2 ^ left - 1) / 2 ^ 32) mod 256], pad.
+      split; [reflexivity|]. split.
+      { apply bytes_ok_cons. split; [apply N.mod_lt; lia | reflexivity]. }
+      cbn [bits_of_bytes app]. rewrite app_nil_r. auto.
+  - apply bytes_ok_cons in Hok as [Hb Hok].
+    destruct (enc_entry b ltac:(lia)) as [n [c [Hnth [Hn [Hc Hcode]]]]].
+    rewrite Hnth.
+    destruct (left <? n) eqn:E1; [apply N.ltb_lt in E1; lia|].
+    destruct (64 <=? left - n) eqn:E2; [apply N.leb_le in E2; lia|].
+    destruct (enc_push_code bits left n c ltac:(lia) ltac:(lia) Hc Hmod) as [Hmod1 Hbits1].
+    set (bits1 := N.lor bits ((c * 2 ^ (left - n)) mod 2 ^ 64)) in *.
+    destruct (enc_flush_correct flush_fuel bits1 (left - n) ltac:(lia)
+                ltac:(unfold flush_fuel; lia) Hmod1)
+      as [put [bits' [left' [Hf [Hl' [Hm' [Hokput Hflush]]]]]]].
+    rewrite Hf.
+    destruct (IH bits' left' Hl' Hm' Hok) as [rest [pad [Hrest [Hokrest [Hbits [Hlen Hones]]]]]].
+    rewrite Hrest. exists (put ++ rest), pad.
+    split; [reflexivity|]. split.
+    { rewrite bytes_ok_app, Hokput, Hokrest. reflexivity. }
+    split; [|auto].
+    rewrite bits_of_bytes_app, Hbits, app_assoc, <- Hflush, Hbits1, Hcode.
+    rewrite <- !app_assoc. reflexivity.
+Qed.
+
+Theorem huff_encode_total s :
+  bytes_ok s = true -> huff_encode_opt s = Some (huff_encode s) /\ bytes_ok (huff_encode s) = true.
+Proof.
+  intros Hok. unfold huff_encode, huff_encode_opt.
+  destruct (enc_loop_correct s 0 40 ltac:(lia) ltac:(apply N.mod_0_l, pow2_nz) Hok)
+    as [out [pad [Hout [Hokout _]]]].
+  rewrite Hout. auto.
+Qed.
+
+(* MAIN THEOREM (encoder): the output is the code words, then fewer than 8 one-bits *)
+Theorem huff_encode_spec s :
+  bytes_ok s = true ->
+  exists pad, bits_of_bytes (huff_encode s) = concat (map code_bits s) ++ pad /\
+              (length pad < 8)%nat /\ all_ones pad = true.
+Proof.
+  intros Hok. unfold huff_encode, huff_encode_opt.
+  destruct (enc_loop_correct s 0 40 ltac:(lia) ltac:(apply N.mod_0_l, pow2_nz) Hok)
+    as [out [pad [Hout [_ [Hbits Hpad]]]]].
+  rewrite Hout. exists pad. split; [|exact Hpad].
+  rewrite Hbits. reflexivity.
+Qed.
+
+Lemma bytes_ok_Forall : forall s, bytes_ok s = true -> Forall (fun b => b < 256) s.
+Proof.
+  induction s as [|b s IH]; intros H; [constructor|].
+  apply bytes_ok_cons in H as [Hb H]. constructor; [exact Hb | apply IH, H].
+Qed.
+
+Theorem huff_encode_valid s :
+  bytes_ok s = true -> huff_valid (bits_of_bytes (huff_encode s)) s.
+Proof.
+  intros Hok. split; [apply bytes_ok_Forall, Hok|]. apply huff_encode_spec, Hok.
+Qed.
+
+(* MAIN THEOREM (round trip) *)
+Theorem huff_roundtrip s : bytes_ok s = true -> huff_decode (huff_encode s) = HOk s.
+Proof.
+  intros Hok.
+  apply huff_decode_ok_iff; [apply huff_encode_total, Hok | apply huff_encode_valid, Hok].
+Qed.
+
+Example huff_roundtrip_nonvacuous :
+  bytes_ok [0; 255; 10; 104] = true /\ huff_encode [0; 255; 10; 104] = [255; 199; 255; 255; 221; 255; 255; 255; 228; 255].
+Proof. vm_compute. auto. Qed.
+
+Example ex_encode_hello : huff_encode [104; 101; 108; 108; 111] = [156; 180; 80; 127].
+Proof. vm_compute. reflexivity. Qed.
